@@ -37,7 +37,11 @@ fn plan_base(prop: &str, tier: &str, h: &dyn Fn(u32, u32) -> PartPlan) -> Vec<Pa
             // second configuration: capacity-1 caches, so that the live instance itself reads from packs
             let mut c1 = if t { pp("hist-cap1", 8, 128000 / 8) } else { pp("hist-cap1", 8, 8000 / 8) };
             c1.env = vec![("MELDA_ARRAYDESCRIPTORS_CACHE_CAP".to_string(), "1".to_string()), ("MELDA_DATA_CACHE_CAP".to_string(), "1".to_string())];
-            vec![h(16000, 384000), c1]
+            let mut v = vec![h(16000, 384000), c1];
+            if prop == "C03" {
+                v.push(pp("deep", 1, 0));
+            }
+            v
         }
         "C05" => vec![h(8000, 128000), if t { pp("trees", 16, 1_000_000 / 16) } else { pp("trees", 16, 40_000 / 16) }, pp("tree-exhaustive", 16, 0)],
         "C06" => vec![h(12000, 256000), pp("merge-exhaustive", 16, 0)],
@@ -115,6 +119,9 @@ pub fn rule(prop: &str, tier: &str) -> String {
         }
         if prop == "C03" || prop == "C04" {
             v.push("[hist-cap1] the same generator in worker processes with both cache capacities = 1".into());
+            if prop == "C03" {
+                v.push("[deep] fixed inputs: values nested 1..400 levels (around the JSON parser's recursion limit of 128) in a verbatim field, in an element of a flattened array and in commit metadata; commit, reopen, compare full observations".into());
+            }
         }
         if tier == "thorough" {
             v.push("[fuzz] libFuzzer (cargo-fuzz, in-process, coverage-guided) on the same interpreter and oracles: bytes are decoded by a hand-written cursor into a history (harness/src/fuzzdec.rs); 4 jobs x 5000 runs from the seed corpus in fuzz/seeds; evaluations = executed inputs, distinct non-trivial = inputs kept by the fuzzer because they reached new coverage".into());
@@ -159,6 +166,7 @@ pub fn run_part(prop: &str, part: &str, tier: &str, cases: u32, seed: u64, _shar
         "tree-exhaustive" => crate::unit::tree_exhaustive(tier == "thorough", _shard, _nshards),
         "merge-exhaustive" => crate::unit::merge_exhaustive(tier == "thorough", _shard, _nshards),
         "diff-exhaustive" => crate::unit::diff_exhaustive(tier == "thorough", _shard, _nshards),
+        "deep" => crate::c03::run(),
         "dual" => runner::drive("dual", prop, crate::c07::strategy(), cases, seed, crate::c07::run),
         "twins" => runner::drive("twins", prop, crate::c19::strategy(), cases, seed, crate::c19::run),
         "configs" => {
@@ -216,6 +224,7 @@ pub fn replay_part(prop: &str, part: &str, case: &Value) -> Option<(String, Stri
             let case: crate::unit::RevCase = serde_json::from_value(case.clone()).ok()?;
             runner::replay(prop, &case, 1, crate::unit::run_rev)
         }
+        "deep" => crate::c03::run().violation.map(|v| (v.prop, v.msg, v.log)),
         "dual" => {
             let case: crate::c07::DualCase = serde_json::from_value(case.clone()).ok()?;
             runner::replay(prop, &case, 5, crate::c07::run)
